@@ -204,7 +204,7 @@ theorem readMetaBody_writeMetaBody (pool : List Bytes) (hp : pool.length ≤ 655
     readMetaBody (pool.map some) (writeMetaBody pool m ++ rest) = .ok (m, rest) := by
   simp only [metaOk, Bool.and_eq_true] at hm
   obtain ⟨⟨⟨⟨⟨⟨⟨h1, h2⟩, h3⟩, h4⟩, h5⟩, h6⟩, h7⟩, h8⟩ := hm
-  simp only [writeMetaBody, List.append_assoc, readMetaBody,
+  simp only [writeMetaBody, List.append_assoc, readMetaBody, bindP,
     readStr_writeStr _ h1, readStr_writeStr _ h2, readStr_writeStr _ h3, readStr_writeStr _ h4,
     readStr_writeStr _ h5, readLimit_writeLimit _ h6,
     readDict_writeDict' pool hp _ h7 hk1, readDict_writeDict' pool hp _ h8 hk2]
@@ -226,7 +226,7 @@ theorem readCellBody_writeCellBody (pool : List Bytes) (hp : pool.length ≤ 655
   obtain ⟨kind, ps, pe, ev, prev, values, md⟩ := c
   cases kind <;> cases prev <;> simp at h6
   all_goals
-    simp only [writeCellBody, List.append_assoc, readCellBody, readDate_writeDate _ h1,
+    simp only [writeCellBody, List.append_assoc, readCellBody, bindP, finishCell, readDate_writeDate _ h1,
       readDate_writeDate _ h2, readDate_writeDate _ h3, readDict_writeDict' pool hp _ h4 hk,
       List.nil_append, hinit]
   simp only [readDate_writeDate _ h6, hinit]
